@@ -1,4 +1,6 @@
 import Uom.Model.Oracle
+import Uom.Model.Ops
+import Uom.Model.OpsOracle
 /-!
 # Line protocol: one harness case per line → model recomputation + oracle verdicts
 -/
@@ -10,29 +12,6 @@ inductive Outcome where
   | diff (tag : String) (detail : String)
   | prop (tag : String) (why : String)
 deriving Repr, Inhabited
-
-def hexDigit? (c : Char) : Option Nat :=
-  if '0' ≤ c ∧ c ≤ '9' then some (c.toNat - 48)
-  else if 'a' ≤ c ∧ c ≤ 'f' then some (c.toNat - 87)
-  else if 'A' ≤ c ∧ c ≤ 'F' then some (c.toNat - 55)
-  else none
-
-def parseHex? (s : String) : Option Nat :=
-  if s.isEmpty then none
-  else s.foldl (fun acc c => match acc, hexDigit? c with
-    | some a, some d => some (a * 16 + d)
-    | _, _ => none) (some 0)
-
-def toHex (n : Nat) (width : Nat) : String :=
-  let ds := Nat.toDigits 16 n
-  String.ofList (List.replicate (width - ds.length) '0' ++ ds)
-
-def fmtOf? (s : String) : Option Fmt :=
-  if s == "f64" then some b64 else if s == "f32" then some b32 else none
-
-def flOf? (f : Fmt) (s : String) : Option Fl := (parseHex? s).map (Fl.ofBits f)
-
-def flHex (f : Fmt) (x : Fl) : String := toHex (Fl.toBits f x) (f.w / 4)
 
 def flList? (f : Fmt) (s : String) : Option (List Fl) :=
   (s.splitOn ":").mapM (flOf? f)
@@ -80,6 +59,64 @@ def convNontrivial (c : ConvCase) : Bool :=
   c.v.isFinite && !c.v.isZero &&
     (Fl.cmp c.coef (Fl.one c.fmt) != some 0 || Fl.cmp f (Fl.one c.fmt) != some 0 || !c.consA.isZero)
 
+def handleBin (N : NumTy) (vt form ul ur lp rp a b obs : String) : Option LineResult := do
+  let form ← BinForm.ofString? form
+  let lps ← (lp.splitOn ":").mapM N.parseT
+  let rps ← (rp.splitOn ":").mapM N.parseT
+  let l := baseFactor N.S lps
+  let r := baseFactor N.S rps
+  let a ← N.parseV a
+  let b ← N.parseV b
+  let keys := [s!"bin:{vt}:{toString (repr form.raw)}", if ul == ur then "bases:same" else "bases:mixed"]
+  let nontriv := ul != ur || !(N.eqV a b)
+  if !(N.tOk l && N.tOk r) then return ⟨[.guard "fixed-width factor"], keys, false⟩
+  let model := binOpOn N form l r a b
+  let mo : Outcome := match Tri.showRes N model with
+    | none => .guard "fixed-width intermediate"
+    | some s => if s == obs then .ok else .diff s!"{vt}.{ul}.{ur}.model" s!"model={s} impl={obs}"
+  let orc : Outcome := match fmtOf? vt with
+    | some f => match flOf? f (N.showV a), flOf? f (N.showV b), flOf? f (N.showV (N.S.value l)), flOf? f (N.showV (N.S.value r)) with
+      | some a, some b, some l, some r => ofVerdict s!"{vt}.oracle" (oracleBinFl f form.raw l r a b obs)
+      | _, _, _, _ => .ok
+    | none => .ok
+  return ⟨[mo, orc], keys, nontriv⟩
+
+def handleFrom (N : NumTy) (vt pair ul ur lp rp a obs : String) : Option LineResult := do
+  let lps ← (lp.splitOn ":").mapM N.parseT
+  let rps ← (rp.splitOn ":").mapM N.parseT
+  let l := baseFactor N.S lps
+  let r := baseFactor N.S rps
+  let a ← N.parseV a
+  let keys := [s!"from:{pair}", if ul == ur then "bases:same" else "bases:mixed"]
+  if !(N.tOk l && N.tOk r) then return ⟨[.guard "fixed-width factor"], keys, false⟩
+  let m := N.showV (kindFromOn N.S l r a)
+  let mo : Outcome := if m == obs then .ok else .diff s!"from.{vt}.model" s!"model={m} impl={obs}"
+  let orc : Outcome := match fmtOf? vt with
+    | some f => match flOf? f (N.showV a), flOf? f (N.showV (N.S.value l)), flOf? f (N.showV (N.S.value r)), flOf? f obs with
+      | some a, some l, some r, some o => ofVerdict s!"from.{vt}.oracle" (oracleFromFl f (ul == ur) l r a o)
+      | _, _, _, _ => .ok
+    | none => .ok
+  return ⟨[mo, orc], keys, true⟩
+
+/-- C07 same-base line: the oracle is the property itself (quantity result = bare-number result);
+    where the model knows the raw arithmetic of the type it also recomputes the bare-number result -/
+def handleSame (N : NumTy) (vt form a b qres rawres : String) : Option LineResult := do
+  let base := (form.splitOn ":").head!
+  let orc : Outcome := if qres == rawres then .ok
+    else .prop s!"{vt}.{base}.oracle" "quantity-level result differs from the bare-number operation on the stored values"
+  let keys := [s!"same:{vt}:{base}"]
+  match sameFormRaw base with
+  | some (op, swap) =>
+    let a ← N.parseV a
+    let b ← N.parseV b
+    let m := if swap then rawBin N op b a else rawBin N op a b
+    let mo : Outcome := match Tri.showRes N m with
+      | none => .guard "fixed-width intermediate"
+      | some s => if s == qres then .ok else .diff s!"{vt}.{base}.model" s!"model={s} impl={qres}"
+    return ⟨[orc, mo], keys, !(N.eqV a b)⟩
+  | none =>
+    if forwardedForms.contains base then return ⟨[orc], keys, true⟩ else none
+
 def handleLine (line : String) : Option LineResult :=
   match line.splitOn " " with
   | ["conv", vt, _base, _module, _unit, coef, consA, consS, pows, v, newObs, getObs, rtObs] => do
@@ -109,6 +146,68 @@ def handleLine (line : String) : Option LineResult :=
     let outs := (List.zip names (List.zip model obs)).map fun (n, m, o) => cmpFl c.fmt s!"{n}.model" m o
     let orc := (List.zip (List.range 4) obs).map fun (i, o) => ofVerdict s!"{names[i]!}.oracle" (oracleRounding c i o)
     return ⟨outs ++ orc, ["rnd", valueKey c.v], convNontrivial c⟩
+  | ["bin", vt, "hypot", _q, ul, ur, lp, rp, a, b, obs] => do
+    -- `hypot` is a libm function: a parameter of the model; only the oracle applies
+    let f ← fmtOf? vt
+    let l := baseFactor (flS f) (← flList? f lp)
+    let r := baseFactor (flS f) (← flList? f rp)
+    return ⟨[ofVerdict s!"{vt}.hypot.oracle" (oracleHypot f l r (← flOf? f a) (← flOf? f b) (← flOf? f obs))],
+            ["bin:hypot", if ul == ur then "bases:same" else "bases:mixed"], true⟩
+  | ["bin", vt, form, _q, ul, ur, lp, rp, a, b, obs] =>
+    match numTy? vt with
+    | some N => handleBin N vt form ul ur lp rp a b obs
+    | none => none
+  | ["mad", vt, _q, _u, _ua, _ub, lpa, rpa, lpb, rpb, x, a, b, obs] => do
+    let f ← fmtOf? vt
+    let S := flS f
+    let la := baseFactor S (← flList? f lpa)
+    let ra := baseFactor S (← flList? f rpa)
+    let lb := baseFactor S (← flList? f lpb)
+    let rb := baseFactor S (← flList? f rpb)
+    let x ← flOf? f x
+    let a ← flOf? f a
+    let b ← flOf? f b
+    let obs ← flOf? f obs
+    return ⟨[cmpFl f "mad.model" (mulAddOn f la ra lb rb x a b) obs,
+             ofVerdict "mad.oracle" (oracleMulAdd f la ra lb rb x a b obs)], ["mad"], true⟩
+  | ["from", vt, pair, ul, ur, lp, rp, a, obs] =>
+    match numTy? vt with
+    | some N => handleFrom N vt pair ul ur lp rp a obs
+    | none => none
+  | ["b2", vt, form, _q, _u, a, b, qres, rawres] =>
+    match numTy? vt with
+    | some N => handleSame N vt form a b qres rawres
+    | none => none
+  | ["sc", vt, form, _q, _u, a, k, qres, rawres] =>
+    match numTy? vt with
+    | some N => handleSame N vt form a k qres rawres
+    | none => none
+  | ["un", vt, form, _q, _u, a, qres, rawres] =>
+    match numTy? vt with
+    | some N => handleSame N vt form a a qres rawres
+    | none => none
+  | ["sum", vt, _q, _u, vs, qres, rawres] =>
+    match numTy? vt with
+    | some N =>
+      let orc : Outcome := if qres == rawres then .ok
+        else .prop s!"{vt}.sum.oracle" "Sum of quantities differs from the sum of the stored values"
+      let vals := if vs == "-" then some [] else (vs.splitOn ":").mapM N.parseV
+      match vals with
+      | none => none
+      | some [] => some ⟨[orc], [s!"same:{vt}:sum"], false⟩
+      | some (v :: rest) =>
+        -- Rust's `Sum` folds from the left starting at the additive identity; for floats that start
+        -- value is −0.0, which is absorbed by the first addition
+        let m := rest.foldl (fun acc x => acc.bind fun s => N.add s x) (Tri.ok v)
+        let mo : Outcome := match m with
+          | .ok r => if N.showV r == qres then .ok else .diff s!"{vt}.sum.model" s!"model={N.showV r} impl={qres}"
+          | .panic => if qres == "PANIC" then .ok else .diff s!"{vt}.sum.model" s!"model=PANIC impl={qres}"
+          | .unsure => .guard "fixed-width intermediate"
+        some ⟨[orc, mo], [s!"same:{vt}:sum"], true⟩
+    | none => none
+  | ["zero", vt, which, _q, _u, qres, rawres] =>
+    some ⟨[if qres == rawres then .ok else .prop s!"{vt}.{which}.oracle" "zero/default of a quantity is not the storage type's"],
+          [s!"same:{vt}:{which}"], false⟩
   | _ => none
 
 end Uom
